@@ -212,8 +212,14 @@ func validatePeriod(v interface{}) error {
 
 // validateAPY validates the BlockReward param
 func validateAPY(v interface{}) error {
-	_, err := sdk.NewDecFromStr(v.(string))
-	return err
+	apy, err := sdk.NewDecFromStr(v.(string))
+	if err != nil {
+		return err
+	}
+	if apy.IsNegative() {
+		return errors.New("invalid annual percentage yield: negative")
+	}
+	return nil
 }
 
 // validateFishmenInfo validates the Fishmen list
